@@ -120,7 +120,9 @@ func receive(data []byte, out net.Conn) {
 	var cblen uint16
 	binary.Read(buf, binary.LittleEndian, &cblen)
 	pkt := make([]byte, cblen)
-	binary.Read(buf, binary.LittleEndian, &pkt)
+	// forward only the bytes the packet really carries
+	n, _ := io.ReadFull(buf, pkt)
+	pkt = pkt[:n]
 
 	out.Write(pkt)
 	verifHook("relay.c2b", nil, out, len(pkt))
